@@ -242,8 +242,12 @@ func (g *histGen) missingTarget(st *sStore) string {
 }
 
 func (g *histGen) markCreated(store, id string) {
-	g.alive[store][id] = true
-	g.alive[g.rootOf(store)][id] = true
+	for _, n := range []string{store, g.rootOf(store)} {
+		if g.alive[n] == nil {
+			g.alive[n] = map[string]bool{}
+		}
+		g.alive[n][id] = true
+	}
 }
 
 func (g *histGen) markDeleted(store, id string) {
